@@ -46,18 +46,28 @@ def records_leg(res, tier):
         for name in files:
             msgs, _t, _r = oracle.single_source_messages(name, work)
             base[name] = msgs
-        items = [(name, w) for name in files for w in windows]
+        items = [(name, w, "utc") for name in files for w in windows]
+        # the same instants written in +05:30 with the offset, and zone-less in -03:30 wall-clock time under --tz-offset -03:30
+        sub = sorted(files)[:: (5 if tier == "quick" else 1)]
+        items += [(name, w, st) for name in sub for w in windows for st in ("off", "naive")]
+
+        def btext(b_, st):
+            if st == "off":
+                return fmt_bound(b_[0] + 330 * 60, b_[1]) + "+05:30"
+            if st == "naive":
+                return fmt_bound(b_[0] - 210 * 60, b_[1])
+            return fmt_bound(*b_)
 
         def one(it):
-            name, (a, b) = it
-            args = list(oracle.DEC_ARGS) + ["-t", "+00:00"]
+            name, (a, b), st = it
+            args = list(oracle.DEC_ARGS) + ["-t=" + ("-03:30" if st == "naive" else "+00:00")]
             if a:
-                args += ["-a", fmt_bound(*a)]
+                args += ["-a", btext(a, st)]
             if b:
-                args += ["-b", fmt_bound(*b)]
+                args += ["-b", btext(b, st)]
             return it, common.run_s4(args + [name], cwd=work), args + [name]
 
-        for (name, (a, b)), r, args in common.pmap(one, items):
+        for (name, (a, b), st), r, args in common.pmap(one, items):
             res.count()
             def key(dtk):  # b"YYYYMMDDTHHMMSS.nnnnnnnnn" -> comparable with bounds
                 return dtk
@@ -68,7 +78,7 @@ def records_leg(res, tier):
             if r.timed_out or r.rc not in (0, 1) or r.out != expected:
                 got_n = r.out.count(oracle.SEPB)
                 res.violation({"kind": "records", "symptom": "selection-differs" if r.rc in (0, 1) else "crash",
-                               "stored_in_time_order": files[name] == sorted(files[name]), "has_before": b is not None, "has_after": a is not None},
+                               "bound_style": st, "stored_in_time_order": files[name] == sorted(files[name]), "has_before": b is not None, "has_after": a is not None},
                               "utmp records %s window [%s,%s]: printed %d records, expected %d" % (name, a, b, got_n, len(exp)),
                               {"engine": "E-CLI", "args": args, "files": {name: common.b64(open(os.path.join(work, name), "rb").read())},
                                "expected_stdout": common.b64(expected)})
